@@ -44,6 +44,8 @@ type outcome struct {
 // proxy can see it (history class of a failed-in-log violation).
 type attempt struct {
 	name       string
+	pid        int64 // producer id / epoch the batch was stamped with
+	epoch      int16
 	reqAt      int   // clock when the request was delivered to the broker (for fabricated answers: when the answer was delivered)
 	fabricated bool  // answered by the proxy with an err:<code> response: kfake never saw the request
 	respAt     int   // clock when a response was delivered to the client (0: never)
@@ -64,11 +66,19 @@ type corrKey struct {
 // attempt was answered before the record was failed.
 const KnownClass = "failed-in-log:unanswered-attempt-then-answered-retry"
 
+// SeqReuseClass is the second known finding, a consequence of the first: a
+// record of the known class was failed although its batch is in the log, the
+// client rewound the partition's sequence numbers, and a LATER record sent
+// with the same producer id/epoch and the same sequence numbers is answered
+// by the broker as a duplicate of the appended batch: it is promised success
+// at the earlier record's offset and is not in the log.
+const SeqReuseClass = "acked-missing:sequence-reuse-after-failed-unanswered-attempt"
+
 // KeyOf is the nrun.Check.KeyOf of checks built on this family: the known
-// class is reported without the scenario name.
+// classes are reported without the scenario name.
 func KeyOf(id string) func(scenario, key string) string {
 	return func(scenario, key string) string {
-		if key == KnownClass {
+		if key == KnownClass || key == SeqReuseClass {
 			return id + ":" + key
 		}
 		return id + ":" + scenario + ":" + key
@@ -95,6 +105,7 @@ type state struct {
 	hist      map[string][]*attempt
 	byCorr    map[corrKey][]*attempt // delivered, not yet answered Produce requests
 	promised  map[string]int         // clock value of the first promise invocation
+	initAt    []int                  // clock values of InitProducerID requests delivered to a broker
 	onProduce func()
 	nparts    int32
 	total     int           // records the scenario produces
@@ -149,6 +160,12 @@ func (st *state) head(p int32) string {
 // does. It records per record the attempt history used to classify
 // failed-in-log violations.
 func (st *state) frameHook(c *netctl.Conn, dir string, key, ver int16, frame []byte) {
+	if key == 22 && dir == "req" {
+		st.mu.Lock()
+		st.clock++
+		st.initAt = append(st.initAt, st.clock)
+		st.mu.Unlock()
+	}
 	if key != 0 {
 		return
 	}
@@ -165,9 +182,10 @@ func (st *state) frameHook(c *netctl.Conn, dir string, key, ver int16, frame []b
 		k := corrKey{c, int32(binary.BigEndian.Uint32(frame[8:]))}
 		st.mu.Lock()
 		st.clock++
-		for _, n := range producedNames(frame) {
+		for _, pn := range producedNames(frame) {
+			n := pn.name
 			st.attempts[n]++
-			a := &attempt{name: n, reqAt: st.clock}
+			a := &attempt{name: n, pid: pn.pid, epoch: pn.epoch, reqAt: st.clock}
 			st.hist[n] = append(st.hist[n], a)
 			st.byCorr[k] = append(st.byCorr[k], a)
 		}
@@ -265,9 +283,15 @@ func (st *state) knownClass(n string) bool {
 	return false
 }
 
+type producedName struct {
+	name  string
+	pid   int64
+	epoch int16
+}
+
 // producedNames decodes a Produce request frame and returns the names of the
-// records in it.
-func producedNames(frame []byte) []string {
+// records in it with the producer id/epoch of their batch.
+func producedNames(frame []byte) []producedName {
 	req, _, ok := netctl.DecodeRequest(frame)
 	if !ok {
 		return nil
@@ -276,7 +300,7 @@ func producedNames(frame []byte) []string {
 	if !ok {
 		return nil
 	}
-	var out []string
+	var out []producedName
 	for _, t := range pr.Topics {
 		for _, p := range t.Partitions {
 			var b kmsg.RecordBatch
@@ -291,11 +315,36 @@ func producedNames(frame []byte) []string {
 					break
 				}
 				recs = recs[int(rl)+n:]
-				out = append(out, nameOf(string(r.Value)))
+				out = append(out, producedName{nameOf(string(r.Value)), b.ProducerID, b.ProducerEpoch})
 			}
 		}
 	}
 	return out
+}
+
+// seqReuse: record n (promised success, absent from the log) was answered as
+// a duplicate of the earlier record e of its partition: an attempt carrying n
+// got a used success answer, with the producer id/epoch of an attempt of e
+// that the broker processed, and no InitProducerID request went out in between.
+func (st *state) seqReuse(n, e string) bool {
+	for _, b := range st.hist[n] {
+		if b.fabricated || b.respAt == 0 || b.code != 0 || b.discarded {
+			continue
+		}
+		for _, a := range st.hist[e] {
+			if a.fabricated || a.reqAt >= b.reqAt || a.pid != b.pid || a.epoch != b.epoch {
+				continue
+			}
+			reinit := false
+			for _, t := range st.initAt {
+				reinit = reinit || (t > a.reqAt && t < b.reqAt)
+			}
+			if !reinit {
+				return true
+			}
+		}
+	}
+	return false
 }
 
 func nameOf(v string) string {
@@ -492,42 +541,60 @@ func final(x *netctl.Exec) {
 	// One violation per class and execution (the records of a partition fail
 	// together, so a per-record report would only repeat itself).
 	agg := map[string][]string{}
+	failKey := map[string]string{} // error-promised records that are in the log -> violation key
 	for _, n := range all {
 		want := known[n]
 		oc := st.outcomes[n]
-		if len(oc) == 0 {
+		if len(oc) == 0 || oc[0].err == nil || st.relaxed || len(where[n]) == 0 {
 			continue
 		}
 		o, hs := oc[0], where[n]
-		switch {
-		case o.err == nil:
-			if len(hs) == 0 {
-				agg["acked-missing"] = append(agg["acked-missing"], fmt.Sprintf("%s promised success at offset %d but is not in the log", n, o.offset))
-				continue
-			}
-			if len(hs) == 1 && (hs[0].offset != o.offset || o.partition != want) {
-				agg["acked-offset-mismatch"] = append(agg["acked-offset-mismatch"], fmt.Sprintf("%s promised success with partition %d offset %d but the log has it at partition %d offset %d", n, o.partition, o.offset, hs[0].partition, hs[0].offset))
-			}
-		case !st.relaxed:
-			if len(hs) > 0 {
-				k := "failed-in-log:" + errKind(o.err)
-				if st.knownClass(n) {
-					k = KnownClass
-				} else if st.unanswered(n) != nil {
-					// Failed together with an earlier record of the partition
-					// (failAllRecords) that is of the known class.
-					for _, n0 := range st.produced[want] {
-						if n0 == n {
-							break
-						}
-						if oc0 := st.outcomes[n0]; len(oc0) > 0 && oc0[0].err != nil && errKind(oc0[0].err) == errKind(o.err) && st.knownClass(n0) {
-							k = KnownClass
-							break
-						}
-					}
+		k := "failed-in-log:" + errKind(o.err)
+		if st.knownClass(n) {
+			k = KnownClass
+		} else if st.unanswered(n) != nil {
+			// Failed together with an earlier record of the partition
+			// (failAllRecords) that is of the known class.
+			for _, n0 := range st.produced[want] {
+				if n0 == n {
+					break
 				}
-				agg[k] = append(agg[k], fmt.Sprintf("%s promised error %q but is in the log at partition %d offset %d [%s]", n, o.err, hs[0].partition, hs[0].offset, st.history(n)))
+				if failKey[n0] == KnownClass && errKind(st.outcomes[n0][0].err) == errKind(o.err) {
+					k = KnownClass
+					break
+				}
 			}
+		}
+		failKey[n] = k
+		agg[k] = append(agg[k], fmt.Sprintf("%s promised error %q but is in the log at partition %d offset %d [%s]", n, o.err, hs[0].partition, hs[0].offset, st.history(n)))
+	}
+	for _, n := range all {
+		want := known[n]
+		oc := st.outcomes[n]
+		if len(oc) == 0 || oc[0].err != nil {
+			continue
+		}
+		o, hs := oc[0], where[n]
+		if len(hs) == 0 {
+			k := "acked-missing"
+			what := fmt.Sprintf("%s promised success at offset %d but is not in the log", n, o.offset)
+			// Answered as a duplicate of an earlier, wrongly failed record of the
+			// partition whose sequence numbers the client reused?
+			for _, e := range st.produced[want] {
+				if e == n {
+					break
+				}
+				if failKey[e] == KnownClass && len(where[e]) == 1 && where[e][0].partition == want && where[e][0].offset == o.offset && st.seqReuse(n, e) {
+					k = SeqReuseClass
+					what += fmt.Sprintf(" (offset of %s, which was promised an error although appended: same producer id/epoch and sequence numbers reused)", e)
+					break
+				}
+			}
+			agg[k] = append(agg[k], what)
+			continue
+		}
+		if len(hs) == 1 && (hs[0].offset != o.offset || o.partition != want) {
+			agg["acked-offset-mismatch"] = append(agg["acked-offset-mismatch"], fmt.Sprintf("%s promised success with partition %d offset %d but the log has it at partition %d offset %d", n, o.partition, o.offset, hs[0].partition, hs[0].offset))
 		}
 	}
 	var keys []string
